@@ -11,7 +11,7 @@ from ..common import V, samples_of
 
 NX = 6
 PROBES = np.array([-0.5, 0.0, 1e-3, 0.37, 1.0, 2.0, 2.5, 3.0, 10.0])
-SIM_OPS = {"simA", "simA'", "simE", "simB", "simC", "simD", "simA+S1", "simB+S2", "resim", "bufB"}
+SIM_OPS = {"simA", "simA'", "simE", "simB", "simC", "simD", "simF", "simA+S1", "simB+S2", "resim", "bufB"}
 # resim: simulate(obj.time) - the very array object of the stored run is passed back (same identity, same values; after a
 #        field was reassigned the run must still be recomputed);  bufB: the stored time array is used as the caller's
 #        buffer - overwritten in place with grid B's values and passed again (same identity, other values)
@@ -42,7 +42,10 @@ def grids(cfg=None):
             "A'": sim.time_grid("quadratic", n, 2.0) * (1 + 4e-6),
             "E": np.array([0.0]),  # a single time: no step is taken, the stored run is the initial state alone
             "C": sim.time_grid("geometric", 11, 0.0),
-            "D": np.concatenate([[0.0], np.geomspace(0.5, 1e7, 15)])}  # runs to complete depletion (profile stops moving)
+            "D": np.concatenate([[0.0], np.geomspace(0.5, 1e7, 15)]),  # runs to complete depletion (profile stops moving)
+            # F has A's LENGTH and is depleted after a few steps (a field buffer reused for equal shapes, a loop that stops
+            # stepping once nothing is left)
+            "F": np.concatenate([[0.0], np.geomspace(0.5, 1e7, n - 1)])}
 
 
 def schedules(p_f, p_i, n=8):
@@ -53,9 +56,9 @@ def schedules(p_f, p_i, n=8):
 
 def alphabet(cls, with_set=True):
     if cls == "ideal":
-        base = ["simA", "simA'", "simE", "simB", "simC", "simD", "resim", "bufB", "rf", "rf_density", "interp"]
+        base = ["simA", "simA'", "simE", "simB", "simC", "simD", "simF", "resim", "bufB", "rf", "rf_density", "interp"]
     else:
-        base = ["simA", "simA'", "simE", "simB", "simC", "simD", "simA+S1", "simB+S2", "resim", "bufB", "simB+bad", "simB+oor",
+        base = ["simA", "simA'", "simE", "simB", "simC", "simD", "simF", "simA+S1", "simB+S2", "resim", "bufB", "simB+bad", "simB+oor",
                 "rf", "rf_density", "interp"]
     return base + (["setF", "setP"] if with_set else [])
 
